@@ -39,8 +39,11 @@ def check_effects(ctx, trace_path):
     return names
 
 
-def run_templates(ctx, clauses, seeds, iters, name="runs", quick_grid=None, templates=None, evals=("seq",), components=False):
-    if components:
+def run_templates(ctx, clauses, seeds, iters, name="runs", quick_grid=None, templates=None, evals=("seq",), components=False,
+                  extra_specs=None):
+    if extra_specs is not None:
+        sp = extra_specs
+    elif components:
         from checks.templates_grid import component_specs
         sp = component_specs(ctx.quick, seeds, iters)
     else:
